@@ -1495,6 +1495,38 @@ func retrieveReadsWholeEntry(c *Ctx) {
 		}
 		n++
 		construct := fmt.Sprintf("%s#decoder-input@%d", retrieveFn, n)
+		// … and decodes all of it: an UnmarshalOptions value that discards unknown fields (or merges
+		// into a used message) returns less than what Store wrote
+		if strings.HasSuffix(full, ".UnmarshalOptions).Unmarshal") {
+			lossy := ""
+			if sel, isSel := cs.call.Fun.(*ast.SelectorExpr); isSel {
+				opt := chase(d.pkg, defs, ast.Unparen(sel.X))
+				cl, isLit := ast.Unparen(opt).(*ast.CompositeLit)
+				if !isLit {
+					lossy = "the decoding options are not a literal at the call (" + types.ExprString(sel.X) + ")"
+				} else {
+					for _, el := range cl.Elts {
+						kv, isKV := el.(*ast.KeyValueExpr)
+						if !isKV {
+							lossy = "positional options literal"
+							continue
+						}
+						k, _ := kv.Key.(*ast.Ident)
+						if k == nil {
+							continue
+						}
+						switch k.Name {
+						case "DiscardUnknown", "Merge":
+							if v, isC := constOf(d.pkg, kv.Value); !isC || v.c.ExactString() != "false" {
+								lossy = k.Name + " is set"
+							}
+						}
+					}
+				}
+			}
+			c.check(lossy == "", R, fmt.Sprintf("%s#decoder-options@%d", retrieveFn, n), c.P.Pos(cs.call.Pos()), "the decoder keeps every field of the entry",
+				fmt.Sprintf("Retrieve decodes with options that drop part of the entry (%s): Store marshals unknown fields, Retrieve discards them, so the retrieved document is not equal to the stored one", lossy))
+		}
 		ok, why := wholeFile(d, defs, cs.call.Args[0], 0)
 		pos := c.P.Pos(cs.call.Pos())
 		switch ok {
